@@ -312,3 +312,47 @@ def unrolled(eng, fi, limit=64):
         return fi, eng.cfg(fi)
     view = _FnView(fi, body)
     return view, CFG(view)
+
+
+def capacity_fields(eng):
+    """Names of the Model field(s) that hold the requested size of the interpolation set: what Model.__init__ stores from the constructor parameter that
+    receives, through Controller.__init__, the `npt` of solve_main.  (Derived, not assumed: today `num_pts`.)"""
+    from ..resolve import bind_call
+    out = set()
+    cinit = eng.fn("controller.Controller.__init__")
+    minit = eng.fn("model.Model.__init__")
+    sm = eng.fn("solver.solve_main")
+    cparams = set()
+    for ci in eng.calls_in(sm):
+        if ci.kind == "CTOR" and any(t.cls == "Controller" for t in ci.targets):
+            b = bind_call(ci.node, cinit, True)
+            for pn, e in b.params.items():
+                if isinstance(e, ast.Name) and e.id == "npt":
+                    cparams.add(pn)
+    mparams = set()
+    for ci in eng.calls_in(cinit):
+        if ci.kind == "CTOR" and any(t.cls == "Model" for t in ci.targets):
+            b = bind_call(ci.node, minit, True)
+            for pn, e in b.params.items():
+                if isinstance(e, ast.Name) and e.id in cparams:
+                    mparams.add(pn)
+    selfn = minit.posparams[0]
+    for node in eng.prog.own_nodes(minit):
+        if isinstance(node, ast.Assign) and isinstance(node.value, ast.Name) and node.value.id in mparams:
+            for t in node.targets:
+                if isinstance(t, ast.Attribute) and isinstance(t.value, ast.Name) and t.value.id == selfn:
+                    out.add(t.attr)
+    if not out:
+        raise AnalysisError("cannot derive the Model field that stores the requested number of interpolation points")
+    return out
+
+
+def coordinate_precondition(eng):
+    """The `assert <capacity> <= <bound>` of Controller.initialise_coordinate_directions (None if absent)."""
+    ic = eng.fn("controller.Controller.initialise_coordinate_directions")
+    caps = capacity_fields(eng)
+    for node in eng.prog.own_nodes(ic):
+        if isinstance(node, ast.Assert) and isinstance(node.test, ast.Compare) and len(node.test.ops) == 1 and isinstance(node.test.ops[0], (ast.LtE, ast.Lt)) \
+                and ekey(node.test.left).split(".")[-1] in caps:
+            return node.test
+    return None
